@@ -148,7 +148,10 @@ def lstep (s : LState) : LOp → LState
       | .dropped => { s with cache := some .err, results := s.results ++ [.err] }
       | .served => { s with cache := some .err, results := s.results ++ [.err] }
       | .waiting =>
-        let r := if s.blob then fetchBlob s.chunkSz s.data s.advLen (pathCuts s.hops cuts)
+        -- A `LazyBlob` that was never sent cannot be fetched: its request carries a `fw_bin::Sender`
+        -- that was not serialized, `fw_bin::Sender::into_inner` yields `None`, the transfer task
+        -- returns and the fetch ends with `FetchError::Dropped`.
+        let r := if s.blob then (if s.hops = 0 then .err else fetchBlob s.chunkSz s.data s.advLen (pathCuts s.hops cuts))
                  else fetchItem s.chunkSz s.data (pathCuts s.hops cuts)
         { s with cache := some r, results := s.results ++ [r],
                  prov := if s.blob then .waiting else .served }
